@@ -68,7 +68,13 @@ class Graph:
                 items = g.program(nstats=1)
                 if any(it.text in (b'return', b'break') for it in items[:1]):
                     continue
-                parts.append(('code', gen_lua.layout(rng, items, rng.choice(['compact', 'spaced', 'lines']), final_newline=False)))
+                while items and items[-1].text == b';':
+                    items.pop()          # keep statement boundaries = part boundaries
+                if not items:
+                    continue
+                # a generated statement can itself be a top-level game-loop function (`function _init() ... end`): the build strips those
+                is_loop = (len(items) > 2 and items[0].text == b'function' and items[1].text in LOOPS and items[2].text == b'(')
+                parts.append(('loop' if is_loop else 'code', gen_lua.layout(rng, items, rng.choice(['compact', 'spaced', 'lines']), final_newline=False)))
             elif k == 'loop':
                 nm = rng.choice(LOOPS)
                 parts.append(('loop', b'function ' + nm + b'()\n  ' + rng.choice([b'cls()', b'x+=1', b'local m=1', b'']) + b'\nend'))
@@ -86,7 +92,8 @@ class Graph:
         if i and rng.random() < 0.5:
             parts.append(('code', b'return {n=%d}' % i))
         f['parts'] = parts
-        sep = [rng.choice([b'\n', b'\n\n', b' ', b'\n-- c\n']) for _ in parts]
+        # (always a line break between parts: a part may end in a line-scoped short-if or `?` statement)
+        sep = [rng.choice([b'\n', b'\n\n', b' \n', b'\n-- c\n']) for _ in parts]
         f['final_nl'] = rng.random() < 0.6
         text = b''
         for p, s in zip(parts, sep):
